@@ -144,6 +144,18 @@ func checkC11(c *core.Check) {
 						}
 						g.Cases = append(g.Cases, mkReq(newCase(), o.method, o.path, cr, a))
 					}
+					// a form-encoded body must play no part in authentication: a key that only appears as a form field is
+					// not a credential, and a form field does not override the credential presented where the scheme reads it
+					if o.method == "POST" && ks.b == "apiKeyQuery" && ii == 0 {
+						form := func(rc driver.ReqCase, body string) driver.ReqCase {
+							rc.Headers["Content-Type"] = []string{"application/x-www-form-urlencoded"}
+							rc.Body, rc.HasBody = body, true
+							return rc
+						}
+						g.Cases = append(g.Cases, form(mkReq(newCase(), o.method, o.path, nil, a), "kb=valid-B&kc=valid-C"))
+						g.Cases = append(g.Cases, form(mkReq(newCase(), o.method, o.path, []pCred{{S: "B", C: "valid"}}, a), "kb=invalid-B&other=1"))
+						g.Cases = append(g.Cases, form(mkReq(newCase(), o.method, o.path, []pCred{{S: "B", C: "invalid"}}, a), "kb=valid-B"))
+					}
 				}
 				groups = append(groups, g)
 			}
